@@ -26,7 +26,7 @@ ASSUMPTIONS = P.ASSUMPTIONS_COMMON + [
     'options); statistics are the same symbolic variables in all three runs',
 ]
 BOUNDS = {
-    'quick': {'pairs': 'independent; sharing a constant buffer; equal '
+    'quick': {'pairs': 'two triples of subgraphs; independent; sharing a constant buffer; equal '
               'structure with different names; insertion-heavy in both',
               'recipes': 'shipped + selective per op'},
     'thorough': {'pairs': 'same + 3 subgraphs + 60 seeded pairs of random '
@@ -125,9 +125,13 @@ PAIRS = {
     'deep_then_late_input': ([(sg_chain3, '_a'), (sg_late_input, '_b')],
                              False),
 }
+PAIRS['three'] = ([(sg_mid_out, '_a'), (sg_gelu_fc, '_b'),
+                   (sg_concat, '_c')], False)
+PAIRS['three_fc'] = ([(sg_fc_fc, '_a'), (sg_fc_tanh, '_b'),
+                      (sg_fc_fc, '_c')], False)
 PAIRS_THOROUGH = {
-    'three': ([(sg_mid_out, '_a'), (sg_gelu_fc, '_b'), (sg_concat, '_c')],
-              False),
+    'four': ([(sg_fc_fc, '_a'), (sg_chain3, '_b'), (sg_mid_out, '_c'),
+              (sg_gelu_fc, '_d')], False),
 }
 
 
